@@ -2,7 +2,7 @@
    line:  <id> <ndoc> <node>*  <nalts> <path>*
      node:  r:- | e<name>:<parent> | a<name>:<parent> | n:<parent> | t:<parent> | c:<parent> | p<name>:<parent>
      path:  rel | abs | fn:<id,id,...>   then <nsteps> then per step:  <c|d> <c|a> <test> <npreds> <pred>*
-     test:  n<k> | w | N | T | C | P | Q<k>
+     test:  n<k> | S<ns> | w | N | T | C | P | Q<k>
      pred (prefix):  pos <op> <k> | poslast | last <op> <k> | num <k> | lastnum | posmod <m> <r> | hasattr <a>
                      | haschild <test> | count <test> | parent <test> | true | not <pred> | and <pred> <pred> | or <pred> <pred>
    output: <id> W:<wf_doc> G:<no_left_of_any><shape> M:<0/1 per node> S:<0/1 per node> *)
@@ -27,6 +27,7 @@ let parse_test () : ntest =
   let t = next () in
   match t.[0] with
   | 'n' -> TName (nat_of_int (int_of_string (tail t)))
+  | 'S' -> TNsWild (nat_of_int (int_of_string (tail t)))
   | 'w' -> TWild | 'N' -> TNode | 'T' -> TText | 'C' -> TComment | 'P' -> TPI
   | 'Q' -> TPIName (nat_of_int (int_of_string (tail t)))
   | _ -> failwith "test"
